@@ -159,14 +159,10 @@ Theorem C08_shifted_at_eigenvector :
 Proof. exact shifted_at_eigenvector. Qed.
 Print Assumptions C08_shifted_at_eigenvector.
 
-(* several roots.  FULL statement (k-th reported energy >= k-th exact eigenvalue, for every k) needs, beyond
-   what is proved here, (i) the form of H on the span of k Ritz vectors is bounded by the k-th Ritz value and
-   (ii) that span contains a non-zero vector orthogonal to the k-1 lowest exact eigenvectors (k-1 homogeneous
-   equations in k unknowns).  C08_roots_partial is the min-max step with (i),(ii) as hypotheses;
-   C08_second_root derives (i),(ii) and hence the bound completely for k = 2.
-   (* full:  forall k (y : fin k -> V) (theta : fin k -> R) (v : fin (k-1) -> V), orthonormal y ->
-             (forall i j, ipV (y i) (H (y j)) == if i = j then theta i else 0) -> monotone theta ->
-             (forall x, (forall j, ipV (v j) x == 0) -> lam_k * ipV x x <= ipV x (H x)) -> lam_k <= theta (k-1) *) *)
+(* several roots.  C08_roots_partial is the abstract min-max step (hypotheses: (i) the form of H on the Ritz span is
+   bounded by the top Ritz value, (ii) the span contains a non-zero vector orthogonal to the k-1 lowest exact
+   eigenvectors); C08_second_root derives (i),(ii) for k = 2; C08_roots_minmax (below) derives them for EVERY k,
+   so the k-th reported energy >= k-th exact eigenvalue is complete. *)
 Theorem C08_roots_partial :
   forall (R : Type) (rO rI : R) (rplus rtimes rminus : R -> R -> R) (ropp : R -> R) (req rle rlt : R -> R -> Prop),
   SOR rO rI rplus rtimes rminus ropp req rle rlt ->
